@@ -8,9 +8,9 @@ ROLES = {
 BLOCKS = {("btc", "taker"): "{3, 504}", ("btc", "maker"): "{1, 1008}", ("lbtc", "taker"): "{2, 60}", ("lbtc", "maker"): "{1, 10080}"}
 
 
-def rec(name, chain, inits, steps, faults=0, crashes=0, swaps=1, adversary=False, blocks=None, side="taker", ver="current", neglimit=False, minmsat=100000000, junk=False, legacy=False, policy=False, acceptall=True):
+def rec(name, chain, inits, steps, faults=0, crashes=0, swaps=1, adversary=False, blocks=None, side="taker", ver="current", neglimit=False, minmsat=100000000, junk=False, legacy=False, policy=False, acceptall=True, duppay="cln", vout=0, peerrate=0, funds="ample", onlyown=False):
     return ('[name |-> "%s", chain |-> "%s", inits |-> {%s}, maxsteps |-> %d, maxfaults |-> %d, maxcrashes |-> %d, maxswaps |-> %d, '
-            'blocks |-> %s, adversary |-> %s, ver |-> "' + ver + '", neglimit |-> ' + ("TRUE" if neglimit else "FALSE") + ', minmsat |-> %d, junk |-> %s, legacy |-> %s, policy |-> %s, acceptall |-> %s]' % (minmsat, "TRUE" if junk else "FALSE", "TRUE" if legacy else "FALSE", "TRUE" if policy else "FALSE", "TRUE" if acceptall else "FALSE")) % (name, chain, ", ".join('"%s"' % i for i in inits), steps, faults, crashes, swaps,
+            'blocks |-> %s, adversary |-> %s, ver |-> "' + ver + '", neglimit |-> ' + ("TRUE" if neglimit else "FALSE") + ', minmsat |-> %d, junk |-> %s, legacy |-> %s, policy |-> %s, acceptall |-> %s, duppay |-> "%s", vout |-> %d, peerrate |-> %d, funds |-> "%s", onlyown |-> %s]' % (minmsat, "TRUE" if junk else "FALSE", "TRUE" if legacy else "FALSE", "TRUE" if policy else "FALSE", "TRUE" if acceptall else "FALSE", duppay, vout, peerrate, funds, "TRUE" if onlyown else "FALSE")) % (name, chain, ", ".join('"%s"' % i for i in inits), steps, faults, crashes, swaps,
                                                    blocks or BLOCKS[(chain, side)], "TRUE" if adversary else "FALSE")
 
 
@@ -51,6 +51,20 @@ def configs(tier):
     out.append(rec("out_sender_lbtc_legacy", "lbtc", ["swapout"], 6 if deep else 4, crashes=1 if deep else 0, side="taker", legacy=True, blocks=None if deep else "{2}"))
     # C11 / C26: the operator switches swaps off / on, allowlists, marks the peer suspicious at run time (allowlist in force), restarts
     out.append(rec("all_btc_policy", "btc", ["swapout", "swapin", "swap_out_request", "swap_in_request"], 5 if deep else 4, swaps=2, blocks="{1}", policy=True, acceptall=False))
+    # C06 / C15 with lnd's duplicate-payment semantics: paying a settled invoice again is an error, the preimage cannot be learnt that way
+    out.append(rec("in_receiver_btc_lnd", "btc", ["swap_in_request"], 6 if deep else 4, crashes=1, side="taker", duppay="lnd"))
+    if deep:
+        out.append(rec("out_sender_btc_lnd", "btc", ["swapout"], 6, crashes=1, side="taker", duppay="lnd"))
+    # C08: the wallet puts the swap output at another position than 0 (change first)
+    out.append(rec("makers_btc_vout1", "btc", ["swap_out_request", "swapin"], 5 if deep else 4, side="maker", vout=1))
+    out.append(rec("makers_lbtc_vout1", "lbtc", ["swap_out_request", "swapin"], 5 if deep else 4, side="maker", vout=1))
+    # C12 / C27: a peer-specific premium rate (negative: the node pays the peer) overrides the global one for this peer only
+    out.append(rec("receivers_btc_peerrate", "btc", ["swap_out_request", "swap_in_request"], 4 if deep else 3, swaps=2, adversary=True, blocks="{3}", peerrate=-2500))
+    # C11: the amount must fit the channel and (swap-out responder) the on-chain balance: one unit short of the typical amount
+    out.append(rec("all_btc_tight", "btc", ["swapout", "swapin", "swap_out_request", "swap_in_request"], 3, swaps=2, adversary=True, blocks="{3}", funds="tight"))
+    # C11: a request for a chain the node has switched off
+    out.append(rec("receivers_btc_onlybtc", "btc", ["swap_out_request", "swap_in_request"], 3, swaps=2, adversary=True, blocks="{3}", onlyown=True))
+    out.append(rec("receivers_lbtc_onlylbtc", "lbtc", ["swap_out_request", "swap_in_request"], 3, swaps=2, adversary=True, blocks="{2}", onlyown=True))
     out.append(rec("mixed_btc_adv", "btc", ["swapout", "swap_in_request", "swapin", "swap_out_request"], 4 if deep else 3, swaps=2,
                    adversary=True, blocks="{3}"))
     return out
@@ -82,7 +96,7 @@ def write(path, tier, only=None, shard=None):
     if shard:
         cs = shards(cs, tier, shard[1])[shard[0]]
     with open(path, "w") as f:
-        f.write("----------------------------- MODULE PeerSwapCfgs -----------------------------\n")
+        f.write("----------------------------- MODULE PeerSwapCfgs -----------------------------\nEXTENDS Integers\n")
         f.write("(* GENERATED (engines/swapfsm_cfgs.py, tier %s): configurations of the design model. *)\n" % tier)
         f.write("CONFIGS == {\n  " + ",\n  ".join(cs) + "}\n")
         f.write("===============================================================================\n")
